@@ -383,8 +383,13 @@ def run_C18(case):
         # disk full: from some append on, whatever makes a file grow fails with ENOSPC (rewrites still
         # succeed); the error travels through the library like any exception (its handlers run), the
         # process gives up, and the folder is reopened later: the same promise as after a death
-        for frac in case.get("disk_full", []) if not case.get("tasks") else []:
-            apps = [x + 1 for x in range(n) if log[x][2] == "append" and x >= spans[0][1]]
+        faults = [("full", f, None) for f in case.get("disk_full", [])] + [("error", f, e_) for f, e_ in case.get("io_errors", [])]
+        for mode, frac, err in faults if not case.get("tasks") else []:
+            if mode == "full":
+                apps = [x + 1 for x in range(n) if log[x][2] == "append" and x >= spans[0][1]]
+            else:
+                # one write of any kind - append, rewrite in place, truncating open - is refused once
+                apps = [x + 1 for x in range(n) if x >= spans[0][1]]
             if not apps:
                 break
             k = apps[min(len(apps) - 1, int(frac * len(apps)))]
@@ -394,7 +399,10 @@ def run_C18(case):
             SEAM.install()
             SEAM.use(disk)
             sut = O.Sut("sim", default, rules, disk=disk)
-            disk.arm_full(k - len(disk.log))
+            if mode == "full":
+                disk.arm_full(k - len(disk.log))
+            else:
+                disk.arm_error(k - len(disk.log), err)
             failed_in = None
             for oi, op in enumerate(case["ops"]):
                 refs = O.resolve_refs(op, model2)
@@ -403,7 +411,7 @@ def run_C18(case):
                 try:
                     ob = O.exec_sut(sut, op, refs, model2)
                 except OSError as e:
-                    if e.errno != errno.ENOSPC:
+                    if "injected" not in str(e) and e.errno != errno.ENOSPC:
                         raise
                     failed_in = oi
                     break
@@ -417,10 +425,20 @@ def run_C18(case):
             files = {p: bytes(b) for p, b in disk.files.items()}
             i = failed_in + 1
             ref_pages, ref_links, rules_after, default_after = snaps[i]
+            # the refused request may have done nothing at all (a clear() whose first truncating open
+            # fails): what the folder may report is what the history reports before or after it
+            before_pages, before_links = snaps[i - 1][0], snaps[i - 1][1]
+            ref_pages = {l: bool(before_pages.get(l)) or bool(ref_pages.get(l)) for l in set(before_pages) | set(ref_pages)}
+            ref_links = {pr: max(before_links.get(pr, 0), ref_links.get(pr, 0)) for pr in set(before_links) | set(ref_links)}
             rules_ = dict(snaps[i - 1][2])
             rules_.update(rules_after)
-            where = "disk full from write event %d/%d on (during op #%d %s), process gives up, folder reopened" % (k, n, failed_in, case["ops"][failed_in]["op"])
-            res.stats["disk_full_states"] += 1
+            if mode == "full":
+                where = "disk full from write event %d/%d on (during op #%d %s), process gives up, folder reopened" % (k, n, failed_in, case["ops"][failed_in]["op"])
+                res.stats["disk_full_states"] += 1
+            else:
+                where = "write event %d/%d (%s) refused with errno %d (during op #%d %s), process gives up, folder reopened" % (k, n, log[k - 1][2], err, failed_in, case["ops"][failed_in]["op"])
+                res.stats["io_error_states"] += 1
+                res.probes["io_error_on_" + log[k - 1][2]] += 1
             from traph.traph import TraphException
 
             try:
@@ -471,6 +489,7 @@ def gen_C18(rng, tier, seed):
             rules.append([O.enc(a), rng.choice(["domain", "path1"])])
         c["ops"].insert(pos, {"op": "clear", "default": rng.choice([None, "domain", "path1"]), "rules": rules})
     c["inline"] = [[rng.random(), rng.random() < 0.5] for _ in range(rng.choice([0, 1, 2]))]
-    c["disk_full"] = [rng.random() for _ in range(rng.choice([0, 1, 2, 3]))]
+    c["disk_full"] = [rng.random() for _ in range(rng.choice([0, 1, 2]))]
+    c["io_errors"] = [[rng.random(), rng.choice([errno.EIO, errno.EIO, errno.ENOSPC, errno.EMFILE])] for _ in range(rng.choice([0, 2, 4, 6]))]
     c["max_events"] = 400 if tier == "quick" else 1500
     return c
